@@ -449,7 +449,7 @@ static int record(int argc, char **argv)
 
     // ---- D. special families of the quantifier
     {
-        const int reps = thorough ? 40 : 3;
+        const int reps = thorough ? 40 : 6;
         const double quad[5] = {0., M_PI / 2, M_PI, -M_PI / 2, -M_PI};
         for (int r = 0; r < reps; ++r)
         {
@@ -495,6 +495,26 @@ static int record(int argc, char **argv)
                 meta.fam = "lattice-headings";
                 Pose A{0, 0, quad[g.rng.below(5)]}, B{S.rho * (g.rng.below(13) - 6), S.rho * (g.rng.below(13) - 6), quad[g.rng.below(5)]};
                 cx.pair(S, A, B, meta, "");
+            }
+            // a CSC word whose first or last arc is tiny (1e-7 .. 2e-6 rad): next to the 0 / 2pi seam of the arc angles
+            // the switching functions read, around the 5e-7 below which the library snaps an angle to 0
+            for (int k = 0; k < 8; ++k)
+            {
+                static const double tiny[8] = {2e-7, 4e-7, 4.9e-7, 5.1e-7, 5.3e-7, 6e-7, 1e-6, 2e-6};
+                Spaces &S = cx.sp(rr++);
+                const char *w = DWORD_SEG[(k + r) % 4];
+                LD x = 0, y = 0, th = g.ang() - M_PI, th0 = th;
+                LD t = 0.2 + 2.6 * g.u(), p = 1 + 15 * g.u() * g.u(), q = tiny[(k + r / 4) % 8];
+                if ((k / 4 + r) % 2)
+                    std::swap(t, q);
+                advance(x, y, th, w[0], t);
+                advance(x, y, th, w[1], p);
+                advance(x, y, th, w[2], q);
+                Meta meta;
+                meta.fam = "tiny-end-arc";
+                Pose A{0, 0, wrapD((double)th0)}, B{(double)(x * S.rho), (double)(y * S.rho), wrapD((double)th)};
+                cx.pair(S, A, B, meta, "");
+                cx.pair(S, B, A, meta, "");
             }
             // far apart: 1e3 radii
             for (int k = 0; k < 4; ++k)
@@ -610,7 +630,7 @@ static int record(int argc, char **argv)
                 if (!bisect([&](const P3 &x) { return rkey(x).first; }, p, other.second, lo, hi))
                     continue;
                 std::string c1 = rkey(lo).first, c2 = rkey(hi).first;
-                if (c1 != kv.first || c1.find('0') != std::string::npos || c2.find('0') != std::string::npos)
+                if (c1 != kv.first || c1.find('0', c1.find(':')) != std::string::npos || c2.find('0', c2.find(':')) != std::string::npos)
                     continue;
                 ++found;
                 std::string node = "rs:" + std::min(c1, c2) + "|" + std::max(c1, c2);
